@@ -1,18 +1,30 @@
 (** C08 Lookups return the value at the asked position, or the default when unsure.
     Model: Ext/Model.v ([get_meta], [meta_valid], [getitem] = NiftiWrapper.get_meta / meta_valid / __getitem__);
-    spec: Ext/Spec.v ([den], [valid]) and Ext/LookupSpec.v ([agrees], [pos_of], [in_bounds], [img_wf]). *)
+    spec: Ext/Spec.v ([den], [valid]) and Ext/LookupSpec.v ([agrees_dir], [agrees_code], [pos_of], [in_bounds], [img_wf]).
+
+    TWO matching predicates (open finding N13):
+    * [agrees_dir]  -- THE SPEC, from the property text: trailing dims, slice count, slice axis present, and the slice
+                       DIRECTIONS (column [:3, slice dim] of the image affine vs. of the extension's affine) agree;
+    * [agrees_code] -- what the code tests: the same with the ROW [affine[slice dim, :3]] in place of the column.
+    C08_value / C08_bounds / C08_mismatch are theorems about [agrees_code] (they say exactly what the implementation
+    does).  They carry over to the spec predicate ([C08_value_dir], [C08_bounds_dir], [C08_mismatch_dir]) on the domain
+    [slice_sym] where the slice row equals the slice column in both affines (symmetric 3x3 part; in particular a slice
+    axis aligned with world axis [slice dim], i.e. axial storage), by [C08_agrees_code_dir].  Off that domain the two
+    predicates are independent and the property FAILS in both directions: [C08_flip_refuted] (slice axis properly
+    flipped, row unchanged: a stored value of ANOTHER slice is returned) and [C08_rowonly_refuted] (in-plane axis
+    flipped, slice direction unchanged: the default is returned although image and extension match). *)
 From Coq Require Import List Bool Arith NArith ZArith QArith Lia.
 From DV Require Import Common.Res Common.Str Common.Jv Ext.Types Ext.Seq Ext.Model Ext.Spec Ext.LookupSpec
      Ext.ProofsLookup Ext.ValidFacts.
 Import ListNotations.
 Local Open Scope nat_scope.
 
-(** in-bounds index on a matching image: the value stored for that slice / time / vector position *)
+(** in-bounds index on an image passing the code's test: the value stored for that slice / time / vector position *)
 Theorem C08_value :
   forall (V : Type) (vnone : V) (im : img) (e : ext V) (k : key) (ix : list Z) (d : V) (c : cls) (vs : list V),
     valid e -> img_wf im ->
     lookup_e e k = Some (c, vs) -> c <> GConst ->
-    agrees im (hdr_of e) c -> in_bounds ix (ishape im) ->
+    agrees_code im (hdr_of e) c -> in_bounds ix (ishape im) ->
     get_meta im e k (Some ix) d = Ok (den vnone e k (pos_of im ix)).
 Proof. exact @get_meta_value. Qed.
 
@@ -29,19 +41,19 @@ Theorem C08_noindex :
     Ok (match get_values_and_class e k with Some (GConst, vs) => List.hd d vs | _ => d end).
 Proof. intros V. exact (@get_meta_noindex V). Qed.
 
-(** a varying key on a matching image: wrong length, negative or too large index raises IndexError (no wrap-around) *)
+(** a varying key on an image passing the code's test: wrong length, negative or too large index raises IndexError (no wrap-around) *)
 Theorem C08_bounds :
   forall (V : Type) (im : img) (e : ext V) (k : key) (ix : list Z) (d : V) (c : cls) (vs : list V),
     get_values_and_class e k = Some (c, vs) -> c <> GConst ->
-    agrees im (hdr_of e) c -> ~ in_bounds ix (ishape im) ->
+    agrees_code im (hdr_of e) c -> ~ in_bounds ix (ishape im) ->
     get_meta im e k (Some ix) d = Err EIndex.
 Proof. intros V. exact (@get_meta_out_of_bounds V). Qed.
 
-(** the image no longer matches the extension for the key's class: the default, whatever the index *)
+(** the image fails the code's test for the key's class: the default, whatever the index *)
 Theorem C08_mismatch :
   forall (V : Type) (im : img) (e : ext V) (k : key) (ix : option (list Z)) (d : V) (c : cls) (vs : list V),
     get_values_and_class e k = Some (c, vs) -> c <> GConst ->
-    ~ agrees im (hdr_of e) c -> get_meta im e k ix d = Ok d.
+    ~ agrees_code im (hdr_of e) c -> get_meta im e k ix d = Ok d.
 Proof. intros V. exact (@get_meta_mismatch V). Qed.
 
 Theorem C08_absent :
@@ -64,11 +76,99 @@ Theorem C08_total :
     (exists v, get_meta im e k ix d = Ok v) \/ get_meta im e k ix d = Err EIndex.
 Proof. intros V. exact (@get_meta_total V). Qed.
 
-(** [agrees] is satisfiable: the image the extension was made for agrees with every class *)
+(** both predicates are satisfiable: the image the extension was made for passes the code's test and matches in the
+    sense of the spec, for every class, whatever the affine *)
 Theorem C08_agrees_exact :
   forall (h : hdr) (c : cls),
-    (is_slices c = true -> sdim h <> None) -> agrees (mk_img (shape h) (sdim h) (aff h)) h c.
-Proof. exact agrees_exact. Qed.
+    (is_slices c = true -> sdim h <> None) ->
+    agrees_code (mk_img (shape h) (sdim h) (aff h)) h c /\ agrees_dir (mk_img (shape h) (sdim h) (aff h)) h c.
+Proof. intros h c H. split; [apply agrees_exact | apply agrees_dir_exact]; exact H. Qed.
+
+(** * Code test vs. slice direction *)
+
+(** where the slice row equals the slice column in both affines the code's test IS the direction test *)
+Theorem C08_agrees_code_dir :
+  forall (im : img) (h : hdr) (c : cls), slice_sym im h -> (agrees_code im h c <-> agrees_dir im h c).
+Proof. exact agrees_code_dir. Qed.
+
+Theorem C08_value_dir :
+  forall (V : Type) (vnone : V) (im : img) (e : ext V) (k : key) (ix : list Z) (d : V) (c : cls) (vs : list V),
+    valid e -> img_wf im -> slice_sym im (hdr_of e) ->
+    lookup_e e k = Some (c, vs) -> c <> GConst ->
+    agrees_dir im (hdr_of e) c -> in_bounds ix (ishape im) ->
+    get_meta im e k (Some ix) d = Ok (den vnone e k (pos_of im ix)).
+Proof.
+  intros V vnone im e k ix d c vs Hv Hw Hs Hl Hc Ha Hb.
+  apply (get_meta_value vnone im e k ix d c vs); auto. apply (agrees_code_dir im (hdr_of e) c Hs). exact Ha.
+Qed.
+
+Theorem C08_bounds_dir :
+  forall (V : Type) (im : img) (e : ext V) (k : key) (ix : list Z) (d : V) (c : cls) (vs : list V),
+    slice_sym im (hdr_of e) ->
+    get_values_and_class e k = Some (c, vs) -> c <> GConst ->
+    agrees_dir im (hdr_of e) c -> ~ in_bounds ix (ishape im) ->
+    get_meta im e k (Some ix) d = Err EIndex.
+Proof.
+  intros V im e k ix d c vs Hs Hv Hc Ha Hb.
+  apply (get_meta_out_of_bounds im e k ix d c vs); auto. apply (agrees_code_dir im (hdr_of e) c Hs). exact Ha.
+Qed.
+
+Theorem C08_mismatch_dir :
+  forall (V : Type) (im : img) (e : ext V) (k : key) (ix : option (list Z)) (d : V) (c : cls) (vs : list V),
+    slice_sym im (hdr_of e) ->
+    get_values_and_class e k = Some (c, vs) -> c <> GConst ->
+    ~ agrees_dir im (hdr_of e) c -> get_meta im e k ix d = Ok d.
+Proof.
+  intros V im e k ix d c vs Hs Hv Hc Hn.
+  apply (get_meta_mismatch im e k ix d c vs); auto. intros Ha. apply Hn. apply (agrees_code_dir im (hdr_of e) c Hs). exact Ha.
+Qed.
+
+(** open finding N13: image (2,4,5), slice axis 0 whose direction is the column (0,2,0) -- off the diagonal (row 0 is
+    (0,3,0)).  The slice axis is properly flipped (column negated, origin moved): the image no longer matches in the
+    sense of the spec, the code's row test still passes, and the lookup at new slice 0 (= old slice 1) returns the
+    value stored for old slice 0 instead of the default. *)
+Definition n13_aff : list (list Q) := [[0; 3; 0; 1]; [2; 0; 0; -5]; [0; 0; 7 # 2; 9]; [0; 0; 0; 1]]%Q.
+Definition n13_aff_flipped : list (list Q) := [[0; 3; 0; 1]; [-2; 0; 0; -3]; [0; 0; 7 # 2; 9]; [0; 0; 0; 1]]%Q.
+Definition n13_ext : ext jv :=
+  mk_ext (mk_hdr [2; 4; 5] (Some 0) n13_aff false false)
+         [([83]%N, (GSlices, [JStr [102; 105; 114; 115; 116]%N; JStr [115; 101; 99; 111; 110; 100]%N]))].
+Definition n13_img : img := mk_img [2; 4; 5] (Some 0) n13_aff_flipped.
+
+Theorem C08_flip_refuted :
+  validb n13_ext = true /\ ~ agrees_dir n13_img (hdr_of n13_ext) GSlices /\ agrees_code n13_img (hdr_of n13_ext) GSlices /\
+  get_meta n13_img n13_ext [83]%N (Some [0; 0; 0]%Z) (JStr [68]%N) = Ok (JStr [102; 105; 114; 115; 116]%N).
+Proof.
+  split; [vm_compute; reflexivity|]. split.
+  - intros H. apply agrees_dirb_spec in H. vm_compute in H. discriminate H.
+  - split; [apply meta_valid_spec; vm_compute; reflexivity | vm_compute; reflexivity].
+Qed.
+
+(** the converse failure: an IN-PLANE axis (1) is flipped; the slice direction is unchanged (the image still matches in the
+    sense of the spec) but the row changed, so the code answers with the default *)
+Definition n13_aff_inplane : list (list Q) := [[0; -3; 0; 10]; [2; 0; 0; -5]; [0; 0; 7 # 2; 9]; [0; 0; 0; 1]]%Q.
+Theorem C08_rowonly_refuted :
+  agrees_dir (mk_img [2; 4; 5] (Some 0) n13_aff_inplane) (hdr_of n13_ext) GSlices /\
+  ~ agrees_code (mk_img [2; 4; 5] (Some 0) n13_aff_inplane) (hdr_of n13_ext) GSlices /\
+  get_meta (mk_img [2; 4; 5] (Some 0) n13_aff_inplane) n13_ext [83]%N (Some [0; 0; 0]%Z) (JStr [68]%N) = Ok (JStr [68]%N).
+Proof.
+  split; [apply agrees_dirb_spec; vm_compute; reflexivity|]. split.
+  - intros H. apply meta_valid_spec in H. vm_compute in H. discriminate H.
+  - vm_compute. reflexivity.
+Qed.
+
+(** [slice_sym] is satisfiable beyond the identity: an axial image with anisotropic voxels and a sheared in-plane part *)
+Example C08_dir_nonvacuous :
+  let a := [[2; 1 # 2; 0; -8]; [1 # 2; 3; 0; 4]; [0; 0; 5 # 2; 1]; [0; 0; 0; 1]]%Q in
+  let h := mk_hdr [2; 2; 3] (Some 2) a false false in
+  slice_sym (mk_img [2; 2; 3] (Some 2) a) h /\ agrees_dir (mk_img [2; 2; 3] (Some 2) a) h GSlices /\
+  ~ agrees_dir (mk_img [2; 2; 3] (Some 2) [[2; 1 # 2; 0; -8]; [1 # 2; 3; 0; 4]; [0; 0; -5 # 2; 6]; [0; 0; 0; 1]]%Q) h GSlices /\
+  slice_sym (mk_img [2; 2; 3] (Some 2) [[2; 1 # 2; 0; -8]; [1 # 2; 3; 0; 4]; [0; 0; -5 # 2; 6]; [0; 0; 0; 1]]%Q) h.
+Proof.
+  cbv zeta. split; [split; intros d H; injection H as <-; reflexivity|].
+  split; [apply agrees_dirb_spec; vm_compute; reflexivity|].
+  split; [intros H; apply agrees_dirb_spec in H; vm_compute in H; discriminate H|].
+  split; intros d H; injection H as <-; reflexivity.
+Qed.
 
 (** [wrapper[key]]: exactly the global constants *)
 Theorem C08_getitem :
@@ -91,7 +191,7 @@ Definition ex_ix : list Z := [0; 1; 0; 1; 1]%Z.
 
 Example C08_value_nonvacuous :
   valid ex_ext /\ img_wf ex_img /\ in_bounds ex_ix (ishape ex_img) /\
-  (forall c, agrees ex_img (hdr_of ex_ext) c) /\
+  (forall c, agrees_code ex_img (hdr_of ex_ext) c) /\
   map (fun k => get_meta ex_img ex_ext k (Some ex_ix) JNull) [[116]%N; [118]%N; [115]%N; [119]%N; [103]%N; [99]%N]
   = map Ok [JInt 13; JInt 21; JInt 31; JInt 43; JInt 57; JStr [97]%N] /\
   map (fun k => den JNull ex_ext k (pos_of ex_img ex_ix)) [[116]%N; [118]%N; [115]%N; [119]%N; [103]%N]
@@ -120,9 +220,9 @@ Qed.
 
 (** the image lost its slice dim_info, or has another T: per-slice / per-sample keys give the default *)
 Example C08_mismatch_nonvacuous :
-  ~ agrees (mk_img [2; 2; 2; 2; 2] None ex_aff) (hdr_of ex_ext) GSlices /\
+  ~ agrees_code (mk_img [2; 2; 2; 2; 2] None ex_aff) (hdr_of ex_ext) GSlices /\
   get_meta (mk_img [2; 2; 2; 2; 2] None ex_aff) ex_ext [103]%N (Some ex_ix) (JStr [100]%N) = Ok (JStr [100]%N) /\
-  ~ agrees (mk_img [2; 2; 2; 3; 2] (Some 1) ex_aff) (hdr_of ex_ext) TSamples /\
+  ~ agrees_code (mk_img [2; 2; 2; 3; 2] (Some 1) ex_aff) (hdr_of ex_ext) TSamples /\
   get_meta (mk_img [2; 2; 2; 3; 2] (Some 1) ex_aff) ex_ext [116]%N (Some ex_ix) (JStr [100]%N) = Ok (JStr [100]%N).
 Proof.
   split; [intros [isd [msd [H _]]]; discriminate H|].
